@@ -50,6 +50,7 @@ package webrtc
 // otherwise the update step is queued (it does not run, and nothing fires, in this call).
 //@ func (*PeerConnection).onNegotiationNeeded
 //@ props C04
+//@ ghost negReq += 1
 //@ requires pcValid(pc) && ghost(qhead) <= ghost(qtail) && ghost(qtail) < 1<<62
 //@ atcall (*operations).Enqueue assert ghost(qtail) == ghost(qhead)
 //@ ensures old(ghost(qtail)) != old(ghost(qhead)) ==> pc.updateNegotiationNeededFlagOnEmptyChain.Load() && ghost(qtail) == old(ghost(qtail))
@@ -63,3 +64,50 @@ package webrtc
 //@ requires validSignalingState(pc.signalingState) && specDescInv(pc)
 //@ ensures pc.isNegotiationNeeded.Load() != old(pc.isNegotiationNeeded.Load()) ==> err == nil && pc.signalingState == SignalingStateStable && !pc.isNegotiationNeeded.Load()
 //@ ensures err == nil && pc.signalingState == SignalingStateStable ==> !pc.isNegotiationNeeded.Load()
+
+// Every operation that can create the need for a negotiation requests the update step
+// (ghost counter negReq = calls of onNegotiationNeeded) on each successful path; so does
+// reaching stable, which re-evaluates a need that arose during the exchange. Whether the
+// step then fires is the guard contract above; that the queue runs it is C05's.
+//@ func (*PeerConnection).addRTPTransceiver
+//@ props C04
+//@ nosafety
+//@ requires pcValid(pc) && ghost(qhead) <= ghost(qtail) && ghost(qtail) < 1<<62
+//@ ensures ghost(negReq) == old(ghost(negReq)) + 1
+
+//@ func (*PeerConnection).AddTrack #trigger
+//@ props C04
+//@ nosafety
+//@ requires pcValid(pc) && ghost(qhead) <= ghost(qtail) && ghost(qtail) < 1<<62 && ghost(negReq) < 1<<62
+//@ ensures err == nil ==> ghost(negReq) > old(ghost(negReq))
+
+//@ func (*PeerConnection).RemoveTrack #trigger
+//@ props C04
+//@ nosafety
+//@ requires pcValid(pc) && ghost(qhead) <= ghost(qtail) && ghost(qtail) < 1<<62 && ghost(negReq) < 1<<62
+//@ ensures err == nil ==> ghost(negReq) > old(ghost(negReq))
+
+//@ func (*PeerConnection).AddTransceiverFromKind #trigger
+//@ props C04
+//@ nosafety
+//@ requires pcValid(pc) && ghost(qhead) <= ghost(qtail) && ghost(qtail) < 1<<62 && ghost(negReq) < 1<<62
+//@ ensures err == nil ==> ghost(negReq) > old(ghost(negReq))
+
+//@ func (*PeerConnection).AddTransceiverFromTrack #trigger
+//@ props C04
+//@ nosafety
+//@ requires pcValid(pc) && ghost(qhead) <= ghost(qtail) && ghost(qtail) < 1<<62 && ghost(negReq) < 1<<62
+//@ ensures err == nil ==> ghost(negReq) > old(ghost(negReq))
+
+//@ func (*PeerConnection).CreateDataChannel #trigger
+//@ props C04
+//@ nosafety
+//@ requires pcValid(pc) && ghost(qhead) <= ghost(qtail) && ghost(qtail) < 1<<62 && ghost(negReq) < 1<<62
+//@ ensures err == nil ==> ghost(negReq) > old(ghost(negReq))
+
+//@ func (*PeerConnection).setDescription #trigger
+//@ props C04
+//@ nosafety
+//@ requires pcValid(pc) && sd != nil && ghost(qhead) <= ghost(qtail) && ghost(qtail) < 1<<62 && ghost(negReq) < 1<<62
+//@ requires validSignalingState(pc.signalingState) && specDescInv(pc)
+//@ ensures err == nil && pc.signalingState == SignalingStateStable ==> ghost(negReq) > old(ghost(negReq))
